@@ -466,6 +466,9 @@ func (r *c32Runner) Step(op string) string {
 	if res == "bad-op" {
 		return res
 	}
+	if race := c32RaceSeen(); race != "" {
+		return "PANIC " + race // the framework judges a PANIC output as a violation
+	}
 	return res + " || " + delivery.VerifAckDump(r.t)
 }
 
